@@ -18,6 +18,8 @@ def setup(rep):
                "the composition of these proved facts into the invariance statement is the meta-step")
     rep.clause("convergence", "N", "discretisation error of the trapezoid rule, convergence as step -> 0 and monotonic growth "
                "with the dip angle (note: one grid point, hence 0, for chords shorter than step)")
+    rep.clause("bounded-slant-depth", "B", "native sampling: slant_depth equals an independent midpoint chord integral of the density "
+               "(up to one step at discontinuities) and does not depend on the length of the direction vector, both models")
     rep.assume("A1 floats are reals; A2 sqrt axioms; A5 np.piecewise/np.linspace/np.trapz/np.dot as specified in pyvc/npspec.py")
 
 
